@@ -353,3 +353,37 @@ Proof.
   - intros i _ Hz Hs. unfold kmatch. rewrite scale_avg_row. apply unit_quotient; assumption.
   - intros j _ Hz Hs. unfold kmatch. rewrite scale_int_col. apply unit_quotient; assumption.
 Qed.
+
+(* ---------------- project_to_side_grids ---------------- *)
+Lemma map_shift_seq : forall off n a, map (fun r => (r + off)%nat) (seq a n) = seq (a + off) n.
+Proof.
+  induction n as [|n IH]; intros a; cbn [seq map]; [reflexivity|].
+  rewrite (IH (S a)). reflexivity.
+Qed.
+
+Definition total_cells (gs : list (list cell)) : nat :=
+  fold_right (fun g acc => (length g + acc)%nat) 0%nat gs.
+
+(* the side restrictions pick every mortar cell exactly once, side after side: their columns,
+   concatenated, are 0, 1, ..., num_cells-1; row r of side k is its r-th cell; all weights 1 *)
+Lemma proj_blocks_partition : forall gs counter,
+    map ecol (concat (proj_blocks counter gs)) = seq counter (total_cells gs) /\
+    Forall (fun e => ewt e = 1) (concat (proj_blocks counter gs)) /\
+    map (map erow) (proj_blocks counter gs) = map (fun g => seq 0 (length g)) gs.
+Proof.
+  induction gs as [|g rest IH]; intros counter; cbn [proj_blocks concat map total_cells fold_right].
+  - repeat split; constructor.
+  - destruct (IH (counter + length g)%nat) as [I1 [I2 I3]]. repeat split.
+    + rewrite map_app, I1, map_map. unfold ecol. cbn [fst snd].
+      rewrite (map_shift_seq counter (length g) 0). cbn [Nat.add].
+      fold (total_cells rest). rewrite seq_app. reflexivity.
+    + apply Forall_app. split; [|exact I2]. apply Forall_forall. intros e He.
+      apply in_map_iff in He. destruct He as [r [<- _]]. reflexivity.
+    + rewrite I3, map_map. unfold erow. cbn [fst]. rewrite map_id. reflexivity.
+Qed.
+
+Lemma project_to_side_grids_partition : forall s,
+    map ecol (concat (project_to_side_grids s)) = seq 0 (n_mortar s) /\
+    Forall (fun e => ewt e = 1) (concat (project_to_side_grids s)) /\
+    map (map erow) (project_to_side_grids s) = map (fun g => seq 0 (length g)) (sides s).
+Proof. intros s. apply (proj_blocks_partition (sides s) 0). Qed.
